@@ -95,6 +95,16 @@ def draw_faults(r, kind, data, readmap):
     kinds = []
     padlen = 0
     ints = [rw for rw in readmap if rw[1] in (1, 2, 4, 8)]
+    # byte ranges the pristine parse consumed in bulk (strings, code, payloads): gaps between the small reads
+    blobs = []
+    prev = 0
+    for pos, w in readmap:
+        if pos - prev >= 8:
+            blobs.append((prev, pos))
+        prev = max(prev, pos + w)
+    if n - prev >= 8:
+        blobs.append((prev, n))
+    cur_len = [n]           # length of the store after the faults drawn so far
     for _ in range(r.choice([1, 1, 1, 2, 2, 3])):
         c = r.random()
         if c < 0.22:
@@ -106,6 +116,7 @@ def draw_faults(r, kind, data, readmap):
             faults.append(["trunc", cut])
             kinds.append("eof")
             n = min(n, cut)
+            cur_len[0] = min(cur_len[0], cut)
         elif c < 0.55:
             if ints and r.random() < 0.8:
                 pos, w = r.choice(ints)
@@ -121,9 +132,16 @@ def draw_faults(r, kind, data, readmap):
             if sub < 0.4 and ints:
                 cand = [rw for rw in ints if rw[1] == 4] or ints
                 pos, w = r.choice(cand)
-                v = r.choice([0x7FFFFFFF, 0xFFFFFFFF, 0x10000000, 0x00FFFFFF, 0x80000000]) & ((1 << (8 * w)) - 1)
+                if r.random() < 0.45:
+                    # a declared count / size that makes the structure end exactly at (or one unit beyond) the end of the store
+                    unit = r.choice([1, 2, 2, 4, 8, 12, 16])
+                    v = max(0, (cur_len[0] - (pos + w)) // unit + r.choice([0, 0, 0, 1, -1]))
+                    v &= (1 << (8 * w)) - 1
+                    kinds.append("grow-count-to-exact-eof")
+                else:
+                    v = r.choice([0x7FFFFFFF, 0xFFFFFFFF, 0x10000000, 0x00FFFFFF, 0x80000000]) & ((1 << (8 * w)) - 1)
+                    kinds.append("grow-count")
                 faults.append(["set", pos, v.to_bytes(w, "little").hex()])
-                kinds.append("grow-count")
             elif sub < 0.6:
                 ones = [rw for rw in readmap if rw[1] == 1]
                 pos = r.choice(ones)[0] if ones else r.randrange(max(1, len(data)))
@@ -146,11 +164,20 @@ def draw_faults(r, kind, data, readmap):
                     tgt = r.choice([len(data), len(data) - 1, pos, max(0, pos - 4)])
                     faults.append(["set", pos, struct.pack("<I", tgt & 0xFFFFFFFF).hex()])
                     kinds.append("offset-to-eof-or-self")
+        elif c < 0.84 and blobs:
+            # one character of a bulk-read region (string pool, string data) replaced by a character that quoting,
+            # escaping or markup code treats specially
+            lo, hi = r.choice(blobs)
+            pos = r.randrange(lo, hi)
+            ch = r.choice([0x27, 0x22, 0x5C, 0x7F, 0x00, 0x0A, 0x3C, 0x26, 0xFF, 0x25, 0x7B])
+            faults.append(["set", pos, "%02x" % ch])
+            kinds.append("special-char-in-blob")
         else:
-            padlen = r.choice([8, 16, 64, 300])
+            padlen = r.choice([1, 2, 3, 8, 16, 64, 300])
             junk = bytes(r.randrange(1, 256) for _ in range(padlen))
             faults.append(["pad", junk.hex()])
             kinds.append("pad")
+            cur_len[0] += padlen
             cand = [rw for rw in ints if rw[1] == 4]
             if cand and r.random() < 0.7:
                 pos, w = r.choice(cand)
